@@ -380,8 +380,12 @@ func (dr *dirRepo) blobCreate(locked bool, opts ...BlobOpt) (BlobCreator, string
 		if err := conf.expect.Validate(); err != nil {
 			return nil, "", fmt.Errorf("invalid digest: %s: %w", string(conf.expect), err)
 		}
-		_, err := os.Stat(filepath.Join(dr.path, blobsDir, conf.expect.Algorithm().String(), conf.expect.Encoded()))
+		file := filepath.Join(dr.path, blobsDir, conf.expect.Algorithm().String(), conf.expect.Encoded())
+		_, err := os.Stat(file)
 		if err == nil {
+			// the caller is told that its content is stored: the blob is as recent as one written now (GC grace period)
+			now := time.Now()
+			_ = os.Chtimes(file, now, now)
 			return nil, "", types.ErrBlobExists
 		}
 	}
